@@ -559,6 +559,20 @@ def build(inp) -> Case:
             pre.append(Issue("PROPFAIL", "flags", f"{what}: easy counts {out.nb_easy_pos},{out.nb_easy_neg}", _sig(run, "easy")))
         return keys, o
 
+    retained, used_cfgs = [], []
+
+    def retain(r, run, what, cfg):
+        """keep every returned sample alive with a copy of what it held: drawing further samples from the same source
+        must leave it alone (scores and their group labels)"""
+        if r[0] == "ok" and isinstance(r[1], GroupScores) and r[1] is not gs:
+            o_ = r[1]
+            try:
+                retained.append((run, what, o_, [np.array(getattr(o_, a_), copy=True)
+                                                 for a_ in ("pos", "neg", "pos_groups", "neg_groups")]))
+                used_cfgs.append(cfg)
+            except Exception:
+                pass
+
     for run in inp["runs"]:
         m, st = run["method"], run["strat"]
         what = (f"{what0}.bootstrap_sample(method={m}, stratified={st}, smoothing={run['smooth']}) script={run['script']}")
@@ -571,6 +585,7 @@ def build(inp) -> Case:
             seed = run["script"]["real"]
             np.random.seed(seed)
             r1 = common.call(gs.bootstrap_sample, cfg)
+            retain(r1, run, what, cfg)
             np.random.seed(seed)
             r2 = common.call(gs.bootstrap_sample, cfg)
             if r1[0] == "exc":
@@ -588,6 +603,7 @@ def build(inp) -> Case:
         s_ = run["script"]
         with ScriptedRNG(seed=s_["seed"], policy=adversarial(s_["mode"]) if s_["mode"] else None) as rr:
             r = common.call(gs.bootstrap_sample, cfg)
+        retain(r, run, what, cfg)
         bad = [e for e in rr.trace if e["raised"] is None and not rng_script.in_range(e, e["resp"])]
         if bad:
             pre.append(Issue("ERR", "script", f"harness produced an out-of-support answer: {bad[0]}", "script"))
@@ -597,6 +613,16 @@ def build(inp) -> Case:
         judges.append(("sample", "scripted", run, what, rr.trace, o,
                        keys if r[0] == "ok" else {"ores": keys["ores"], "msg": r[2] if r[0] == "exc" else ""}))
 
+    for k_, cfg_ in enumerate(used_cfgs[:6]):  # one more draw per configuration used, then look at the earlier samples again
+        np.random.seed(977 + k_)
+        common.call(gs.bootstrap_sample, cfg_)
+    for run_, what_, o_, held_ in retained:
+        now_ = [np.asarray(getattr(o_, a_)) for a_ in ("pos", "neg", "pos_groups", "neg_groups")]
+        if any(a_.shape != b_.shape or not np.array_equal(a_, b_) for a_, b_ in zip(now_, held_)):
+            pre.append(Issue("PROPFAIL", "attached", f"{what_}: the returned sample changed when further samples were drawn from "
+                             f"the same source (pos {_short(held_[0].tolist(), 6)}/{_short(held_[2].tolist(), 6)} -> "
+                             f"{_short(now_[0].tolist(), 6)}/{_short(now_[2].tolist(), 6)})", _sig(run_, "retained")))
+            break
     np.random.set_state(gstate)
     if snapshot(gs) != snap0:
         fail("source-unchanged", "the source object changed during queries / sampling", "source")
